@@ -18,6 +18,7 @@ import (
 type PropConfig struct {
 	Funcs          []string `json:"funcs"`           // functions verified against their contracts
 	Safety         []string `json:"safety"`          // functions (or package prefixes ending in "...") swept for run-time panics
+	Contracts      []string `json:"contracts"`       // verified with callees used through their contracts; callees without contract are opaque (may-write set havoced), nothing is inlined
 	Shallow        []string `json:"shallow"`         // verified against contracts without inlining callees (callees without contract: may-write set havoced)
 	Lock           []string `json:"lock"`            // functions checked for lock discipline
 	SmtLemmas      []SmtLemma `json:"smt_lemmas"`
@@ -231,6 +232,9 @@ func cmdCheck(args []string) int {
 	}
 	for _, n := range matchFuncs(w, cfg.Shallow) {
 		jobs = append(jobs, job{n, verifyOpts{property: *prop, callPolicy: "shallow"}, "contract-shallow"})
+	}
+	for _, n := range matchFuncs(w, cfg.Contracts) {
+		jobs = append(jobs, job{n, verifyOpts{property: *prop, callPolicy: "contracts"}, "contract-modular"})
 	}
 	for _, n := range matchFuncs(w, cfg.Safety) {
 		jobs = append(jobs, job{n, verifyOpts{property: *prop, nopanic: true, safetyOnly: true}, "safety"})
